@@ -186,7 +186,8 @@ class ScenarioManagerSd(ScenarioManager):
         for name, function in model.functions.items():
             new_function = new_mod.function(name, model.fn[name])
 
-        new_mod.points = model.points
+        # every clone gets its own points: a scenario that changes a lookup must not change it for the base model and the other scenarios
+        new_mod.points = {name: list(points) for name, points in model.points.items()}
 
         return new_mod
 
